@@ -217,6 +217,12 @@ type Cluster struct {
 	// in the middle of a batch (what brokers do; consumers drop the partial tail)
 	TruncateAtMaxBytes bool
 	ListOffsetsErr     func(topic string, part int32) int16
+	GroupInitialDelay  time.Duration
+	MinSession, MaxSession time.Duration
+	CommitErr          func(g *Group, topic string, part int32) int16
+	OnStable           func(g *Group, gr *GenRecord)
+	OnOffsetFetch      func(g *Group, r *Req, topic string, part int32, off int64)
+	nextPID            int
 	SASL       *SASLConfig
 	// monitors
 	wireViolations int
